@@ -252,7 +252,7 @@ CONFIG["C07"] = dict(
     assumptions=["reliable broadcast, round-synchronous delivery, at most t Byzantine participants"],
 )
 CONFIG["C08"] = dict(
-    lean_modules=["Props.C08"], generators=["C08"], level="proof", rule=_DKG_RULE, trusted_base=BLS_TB,
+    lean_modules=["Props.C08", "Props.C08Dealer"], generators=["C08"], level="proof", rule=_DKG_RULE, trusted_base=BLS_TB,
     technique="Lean 4 proof (blame targets, honest participants never blame each other over whole executions, monotone disqualification, fault => disqualification lemmas, honest dealer never disqualified and never flagged, plain Feldman VSS invariant) + differential run + fairness predicates on real executions",
     level_text="Theorems for every state and message: an instance only ever blames the sender of the handled message or its dealer; timeouts/End only blame the dealer; disqualification is monotone and makes End fail; "
                "unanswered complaint, > t complaints, missing / late / malformed vector each disqualify; plain Feldman VSS returns keys only with a valid stored vector and a share passing the check against it (invariant over all call sequences of a non-dealer). "
@@ -267,7 +267,9 @@ CONFIG["C08"] = dict(
                "honest_dealer_never_blamed_by_honest (Proofs/DkgDealerBlame): the instances whose dealer is itself honest - over three rounds, both timeouts and End no Disqualify / FlagMisbehavior callback of an honest receiver targets an honest dealer, for every behaviour of the others and every order, "
                "given deliveries compatible with an honest dealer, vector and share in round one, at most t complainers each answered, no message of the dealer delivered twice (Once: pairwise, over all three rounds), no vector/share after round one and no complaint-tagged dealer broadcast after the second timeout; "
                "rests on delivery_never_blames_honest_dealer (handler by handler: a first-time, in-time vector / share / valid answer and every complaint of another participant produce no callback against the dealer) and a history invariant (what is still to be delivered has not been received: Safe, kept by frames_interp); non-vacuity example. "
-               "The hypotheses are necessary: a second copy of the vector, a late share or a second answer IS flagged by the code (FlagMisbehavior on the dealer), as the runs show.",
+               "The hypotheses are necessary: a second copy of the vector, a late share or a second answer IS flagged by the code (FlagMisbehavior on the dealer), as the runs show. "
+               "Props.C08Dealer (the dealer's side of 'no second answer'): repeated_complaint_not_answered (a complaint already registered as received makes the handler broadcast nothing, for every data), answer_registers_complaint (any broadcast of the handler comes with 'not registered before, registered after'), "
+               "registered_stays, and dealer_answers_once_partial: over every history of complaint deliveries (any origins, any data, any repetitions) from every state each complainer is answered at most once, and never once registered (partial: histories of complaint deliveries only; that the other handlers and the timeouts keep the table entries is not proven).",
     level_note="Lean kernel + correspondence",
     assumptions=["reliable broadcast, round-synchronous delivery, at most t Byzantine participants"],
 )
